@@ -51,18 +51,24 @@ class TealBlock(ABC):
             # using a list instead of a set as TealBlock is not hashable and PyTEAL programs should be short anyway
             visited = []
 
-        if parent is not None:
-            count = 0
-            for block in self.incoming:
-                if parent is block:
-                    count += 1
-            assert count == 1
+        # iterative depth-first walk (same visiting order as the recursive formulation): the
+        # depth of the graph grows with the length of the program
+        pending: List[Tuple["TealBlock", "TealBlock | None"]] = [(self, parent)]
+        while pending:
+            current, currentParent = pending.pop()
 
-        if all(self is not b for b in visited):
-            # if the block was not already visited
-            visited.append(self)
-            for block in self.getOutgoing():
-                block.validateTree(self, visited)
+            if currentParent is not None:
+                count = 0
+                for block in current.incoming:
+                    if currentParent is block:
+                        count += 1
+                assert count == 1
+
+            if all(current is not b for b in visited):
+                # if the block was not already visited
+                visited.append(current)
+                for block in reversed(current.getOutgoing()):
+                    pending.append((block, current))
 
     def addIncoming(
         self,
@@ -79,14 +85,22 @@ class TealBlock(ABC):
             # using a list instead of a set as TealBlock is not hashable and PyTEAL programs should be short anyway
             visited = []
 
-        if parent is not None and all(parent is not b for b in self.incoming):
-            self.incoming.append(parent)
+        # iterative depth-first walk (same visiting order as the recursive formulation): the
+        # depth of the graph grows with the length of the program
+        pending: List[Tuple["TealBlock", "TealBlock | None"]] = [(self, parent)]
+        while pending:
+            current, currentParent = pending.pop()
 
-        if all(self is not b for b in visited):
-            # if the block was not already visited
-            visited.append(self)
-            for b in self.getOutgoing():
-                b.addIncoming(self, visited)
+            if currentParent is not None and all(
+                currentParent is not b for b in current.incoming
+            ):
+                current.incoming.append(currentParent)
+
+            if all(current is not b for b in visited):
+                # if the block was not already visited
+                visited.append(current)
+                for b in reversed(current.getOutgoing()):
+                    pending.append((b, current))
 
     def validateSlots(
         self,
